@@ -41,6 +41,10 @@ ODD = [
     "First()", "First().a", "First()[0]", "First().m()", "Select()", "Select(ds)", "Where(ds, 1)", "SelectMany(ds, f)",
     # literals with a starred element have no fixed positions (F37)
     "(*(1, 2), 3)[0]", "[*ds, 1][-1]", "(1, *(2, 3))[1]", "Select(ds, lambda e: (*e.jets, e.a)[1])", "(lambda t: (*t, 0)[2])((1, 2))",
+    # ... from either end, wherever the star is
+    "(1, *(2, 3))[-1]", "[1, *(2, 3)][-1]", "(1, *(2, 3))[-3]", "(1, *(2, 3))[0]", "(1, 2, *(3,))[1]", "(1, *(2, 3), 4)[-1]", "(1, *(2, 3), 4)[0]",
+    "(*(1, 2),)[-1]", "Select(ds, lambda e: (e.a, *e.jets)[-1])", "(lambda t: (0, *t)[-1])((1, 2))", "(lambda t: (0, *t)[-2])((1, 2))",
+    "Select(Select(ds, lambda e: (e.a, *e.jets)), lambda t: t[-1])", "First(Select(ds, lambda e: [e.a, *e.jets]))[-1]",
     # computed constant selectors: only -<int literal> is a negative literal index; +n, ~n, not n, -(-n) are expressions
     "(1, 2, 3, 4)[+1]", "(1, 2, 3, 4)[~0]", "(1, 2, 3, 4)[not 0]", "(1, 2, 3, 4)[~1]", "[1, 2, 3][+0]", "{1: 'a', 2: 'b'}[+1]", "{-1: 'a', 1: 'b'}[+1]",
     "(1, 2, 3)[-(-1)]", "(1, 2, 3)[-True]", "Select(Select(ds, lambda e: (e.a, e.b, e.met)), lambda t: t[~0])", "(lambda t: t[+1])((1, 2, 3))",
